@@ -156,7 +156,9 @@ func runC05(e *sim.Env) {
 	}
 	// binary attachments name their namespace and event too: frames of two namespaces that get mixed on
 	// the shared connection show as a foreign attachment (or as a parse error that ends the connection)
-	blobFor := func(ns string, id int) sio.Binary { return sio.Binary(fmt.Sprintf("blob|%s|%d|%s", ns, id, strings.Repeat("x", id%40))) }
+	blobFor := func(ns string, id int) sio.Binary {
+		return sio.Binary(fmt.Sprintf("blob|%s|%d|%s", ns, id, strings.Repeat("x", id%40)))
+	}
 	checkBlob := func(side, handlerNs, ns string, id int, blob sio.Binary) {
 		if string(blob) != string(blobFor(ns, id)) {
 			e.Violate("C05/cross-namespace-delivery", "attachment", "%s-side handler of %q: event #%d of %q arrived with the attachment %.60q", side, handlerNs, id, ns, blob)
